@@ -64,6 +64,8 @@ type c14Block struct {
 	PURevert bool    `json:"pu_revert"` // the tx carrying the params update fails afterwards: its store writes are reverted
 	Deposit  int     `json:"deposit"`   // operator index+1 receiving extra stake (0 = none)
 	DepAmt   int64   `json:"dep_amt"`
+	Undel    int     `json:"undel"`     // operator index+1 whose self-delegation is reduced (0 = none): below MinSelfDelegation dogfood removes the validator
+	UndelAmt int64   `json:"undel_amt"`
 }
 
 // ---- observations ------------------------------------------------------------------------------
@@ -259,10 +261,36 @@ func (w *c14World) deposit(op int, amt int64) (code int) {
 	}); err != nil {
 		return 5
 	}
-	w.lzNonce++
+	hh := uint64(ctx.BlockHeight())
 	if err := w.env.App.DelegationKeeper.DelegateTo(mc, &delegationtypes.DelegationOrUndelegationParams{
 		ClientChainID: w.env.LzID, Action: assetstypes.DelegateTo, AssetsAddress: asset.Bytes(), OperatorAddress: w.env.Operators[op],
-		StakerAddress: staker.Bytes(), OpAmount: a, LzNonce: 1000 + w.lzNonce, TxHash: common.BytesToHash(seedBytes("c14dep", int(w.lzNonce))),
+		StakerAddress: staker.Bytes(), OpAmount: a, LzNonce: 100000 + hh, TxHash: common.BytesToHash(seedBytes("c14dep", int(hh))),
+	}); err != nil {
+		return 5
+	}
+	mwrite()
+	return 0
+}
+
+// undelegate reduces an operator's self-delegation through the real delegation keeper. When the remaining value falls
+// below the dogfood MinSelfDelegation the operator leaves the validator set at the next epoch end: a validator update
+// that consists of a removal only.
+func (w *c14World) undelegate(op int, amt int64) (code int) {
+	ctx := w.env.Ctx
+	defer func() {
+		if r := recover(); r != nil {
+			code = 9
+		}
+	}()
+	staker := common.Address(w.env.Operators[op].Bytes())
+	asset := common.HexToAddress(w.env.AssetAddr)
+	a := sdkmath.NewIntWithDecimal(amt, 6)
+	mc, mwrite := ctx.CacheContext()
+	// nonce / tx hash are functions of the height: the restarted twin re-executes the block with identical inputs
+	hh := uint64(ctx.BlockHeight())
+	if err := w.env.App.DelegationKeeper.UndelegateFrom(mc, &delegationtypes.DelegationOrUndelegationParams{
+		ClientChainID: w.env.LzID, Action: assetstypes.UndelegateFrom, AssetsAddress: asset.Bytes(), OperatorAddress: w.env.Operators[op],
+		StakerAddress: staker.Bytes(), OpAmount: a, LzNonce: 500000 + hh, TxHash: common.BytesToHash(seedBytes("c14undel", int(hh))),
 	}); err != nil {
 		return 5
 	}
@@ -404,6 +432,9 @@ func (w *c14World) runBlock(b c14Block) c14Obs {
 	}
 	if b.Deposit != 0 {
 		codes = append(codes, 200+w.deposit(b.Deposit-1, b.DepAmt))
+	}
+	if b.Undel != 0 {
+		codes = append(codes, 300+w.undelegate(b.Undel-1, b.UndelAmt))
 	}
 	crashed := false
 	func() {
@@ -822,6 +853,9 @@ type c14Plan struct {
 	puAt   int
 	puKind int
 	depAt  int
+	undAt  int
+	undOp  int
+	undAmt int64
 	depOp  int
 	depAmt int64
 	style  int
@@ -858,19 +892,30 @@ func c14Directed() []c14Plan {
 	d7[1].Txs = []c14Tx{{Val: 0, Feeder: 1, Nonce: 1, Based: 1, Prices: px(1, 100)}}
 	d7[2].Txs = []c14Tx{{Val: 1, Feeder: 1, Nonce: 1, Based: 1, Prices: px(2, 101)}}
 	d7[3].Txs = []c14Tx{{Val: 1, Feeder: 1, Nonce: 2, Based: 1, Prices: px(1, 100)}}
+	// three validators; validator 2 undelegates below MinSelfDelegation in block 2: dogfood removes it at the next epoch end
+	// (a validator update made of a removal only) while rounds are inside their windows; the others keep submitting
+	three := c14Cfg{Deposits: []int64{200, 100, 100}, Intervals: [2]uint64{6, 7}, Starts: [2]uint64{1, 2}, MaxNonce: 3}
+	d8 := e(18)
+	for i := range d8 {
+		d8[i].DT = 20
+	}
+	d8[7].Undel, d8[7].UndelAmt = 3, 30 // block 8; the removal is emitted at the epoch end of block 10, inside the window of feeder 2's round based 9
+	d8[9].Txs = []c14Tx{{Val: 0, Feeder: 2, Nonce: 1, Based: 9, Prices: px(1, 100)}}
+	d8[10].Txs = []c14Tx{{Val: 1, Feeder: 2, Nonce: 1, Based: 9, Prices: px(1, 100)}}
 	d3 := e(16)
 	for i := range d3 {
 		d3[i].DT = 20
 	}
 	d3[1].Deposit, d3[1].DepAmt = 1, 77
 	return []c14Plan{
-		{name: "kf-nonce0", cfg: two, blocks: d1, n: 14, puAt: -1, depAt: -1},
-		{name: "kf-final", cfg: two, blocks: d2, n: 14, puAt: -1, depAt: -1},
-		{name: "kf-valset", cfg: c14Cfg{Deposits: []int64{101, 100}, Intervals: [2]uint64{6, 7}, Starts: [2]uint64{1, 2}, MaxNonce: 3}, blocks: d3, n: 16, puAt: -1, depAt: -1},
-		{name: "kf-params", cfg: two, blocks: d4, n: 14, puAt: -1, depAt: -1},
-		{name: "kf-reverted-params", cfg: two, blocks: d5, n: 14, puAt: -1, depAt: -1},
-		{name: "kf-default-maxnonce", cfg: four, blocks: d6, n: 16, puAt: -1, depAt: -1},
-		{name: "reg-window-underflow", cfg: four, blocks: d7, n: 12, puAt: -1, depAt: -1},
+		{name: "kf-nonce0", cfg: two, blocks: d1, n: 14, puAt: -1, depAt: -1, undAt: -1},
+		{name: "kf-final", cfg: two, blocks: d2, n: 14, puAt: -1, depAt: -1, undAt: -1},
+		{name: "kf-valset", cfg: c14Cfg{Deposits: []int64{101, 100}, Intervals: [2]uint64{6, 7}, Starts: [2]uint64{1, 2}, MaxNonce: 3}, blocks: d3, n: 16, puAt: -1, depAt: -1, undAt: -1},
+		{name: "kf-params", cfg: two, blocks: d4, n: 14, puAt: -1, depAt: -1, undAt: -1},
+		{name: "kf-reverted-params", cfg: two, blocks: d5, n: 14, puAt: -1, depAt: -1, undAt: -1},
+		{name: "kf-default-maxnonce", cfg: four, blocks: d6, n: 16, puAt: -1, depAt: -1, undAt: -1},
+		{name: "reg-window-underflow", cfg: four, blocks: d7, n: 12, puAt: -1, depAt: -1, undAt: -1},
+		{name: "reg-valset-removal", cfg: three, blocks: d8, n: 18, puAt: -1, depAt: -1, undAt: -1},
 	}
 }
 
@@ -891,6 +936,12 @@ func runC14(a *Args) error {
 			}
 			if rng.Intn(2) == 0 {
 				plan.depAt, plan.depOp, plan.depAmt = 1+rng.Intn(plan.n-6), 1+rng.Intn(len(plan.cfg.Deposits)), int64(1+rng.Intn(150))
+			}
+			plan.undAt = -1
+			if len(plan.cfg.Deposits) >= 3 && rng.Intn(3) == 0 {
+				// drop a validator below MinSelfDelegation (100): a removal-only validator update at the next epoch end
+				op := 1 + rng.Intn(len(plan.cfg.Deposits)-1)
+				plan.undAt, plan.undOp, plan.undAmt = 1+rng.Intn(plan.n-6), op+1, plan.cfg.Deposits[op]-99+int64(rng.Intn(40))
 			}
 		}
 		world := c14NewWorld(plan.cfg)
@@ -930,8 +981,14 @@ func runC14(a *Args) error {
 				modelled = false
 				w.Count("op_param_update")
 			}
+			if b == plan.undAt && plan.undAt >= 0 && plan.name == "random" {
+				blk.Undel, blk.UndelAmt = plan.undOp, plan.undAmt
+			}
 			if blk.Deposit != 0 {
 				w.Count("op_deposit")
+			}
+			if blk.Undel != 0 {
+				w.Count("op_undelegate")
 			}
 			hist.Blocks = append(hist.Blocks, blk)
 			o := world.runBlock(blk)
